@@ -10,6 +10,7 @@ conditions of if / elif / while / assert / conditional expressions and comprehen
 The translation is fail-closed: an expression outside the supported subset makes the site
 "untranslated" (reported; its tie lemma is omitted and the check treats it as a broken tie)."""
 import ast
+import re
 import json
 import os
 import sys
@@ -411,6 +412,89 @@ STRUCT_SITES = [
 ]
 
 
+# ---------------------------------------------------------------------------
+# Decision fingerprints: for every function the model mirrors, the list of its decision expressions as
+# written (normalised by ast.unparse).  xlate/decisions.json records the lists the model was written and
+# compared against; a function whose list differs is a broken tie for the properties that rest on it
+# (`pyxlate.py snapshot` rewrites the record — only after the model has been re-aligned with the source).
+DECISION_FILES = ["demes/demes.py", "demes/ms.py", "demes/load_dump.py", "demes/__main__.py"]
+DECISION_PROPS = [
+    # (file, qualified-name prefix, properties)
+    ("demes/demes.py", "Epoch.assert_close", ["C10"]), ("demes/demes.py", "AsymmetricMigration.assert_close", ["C10"]),
+    ("demes/demes.py", "Pulse.assert_close", ["C10"]), ("demes/demes.py", "Deme.assert_close", ["C10"]),
+    ("demes/demes.py", "Graph.assert_close", ["C10"]), ("demes/demes.py", "isclose_deme_proportions", ["C10"]),
+    ("demes/demes.py", "Split.", ["C14"]), ("demes/demes.py", "Branch.", ["C14"]), ("demes/demes.py", "Merge.", ["C14"]),
+    ("demes/demes.py", "Admix.", ["C14"]), ("demes/demes.py", "Graph.successors", ["C14"]),
+    ("demes/demes.py", "Graph.predecessors", ["C14"]), ("demes/demes.py", "Graph.discrete_demographic_events", ["C14"]),
+    ("demes/demes.py", "Deme.size_at", ["C13"]), ("demes/demes.py", "Graph.migration_matrices", ["C12"]),
+    ("demes/demes.py", "Graph._check_migration_rates", ["C12", "C01", "C03"]), ("demes/demes.py", "Graph.in_generations", ["C11"]),
+    ("demes/demes.py", "Graph.rename_demes", ["C15"]), ("demes/demes.py", "Graph.asdict_simplified", ["C05"]),
+    ("demes/demes.py", "Graph.asdict", ["C06"]), ("demes/demes.py", "_copy_unshared", ["C18", "C02"]),
+    ("demes/demes.py", "Builder._add_migrations_from_matrices", ["C08"]), ("demes/demes.py", "Builder._remove_transient_demes", ["C08"]),
+    ("demes/demes.py", "Builder.", ["C18", "C02"]),
+    ("demes/demes.py", "insert_defaults", ["C02"]), ("demes/demes.py", "Graph.fromdict", ["C02", "C03"]),
+    ("demes/demes.py", "Deme._add_epoch", ["C02", "C03"]), ("demes/demes.py", "Graph._add_", ["C01", "C02", "C03"]),
+    ("demes/demes.py", "", ["C01", "C03"]),      # validators, attrs post-init checks, check_defaults, pop_*, ...
+    ("demes/ms.py", "to_ms", ["C07"]), ("demes/ms.py", "build_graph", ["C08"]), ("demes/ms.py", "from_ms", ["C08"]),
+    ("demes/ms.py", "remap_deme_names", ["C08"]), ("demes/ms.py", "Structure.", ["C08", "C09"]),
+    ("demes/ms.py", "coerce_nargs", ["C08", "C09"]), ("demes/ms.py", "build_parser", ["C08", "C09"]), ("demes/ms.py", "", ["C09"]),
+    ("demes/load_dump.py", "_open_file_polymorph", ["C17"]), ("demes/load_dump.py", "", ["C04", "C16"]),
+    ("demes/__main__.py", "", ["C19"]),
+]
+
+
+def decision_props(path, qual):
+    for f, pre, props in DECISION_PROPS:
+        if f == path and qual.startswith(pre):
+            return props
+    return []
+
+
+def decisions_now():
+    out = {}
+    for path in DECISION_FILES:
+        fns = load(path)
+        out[path] = {q: tests_text(fn) for q, fn in fns.items() if tests_of(fn)}
+    return out
+
+
+def decision_sites():
+    rec_path = os.path.join(os.path.dirname(os.path.abspath(__file__)), "decisions.json")
+    rec = json.load(open(rec_path))
+    now = decisions_now()
+    items, report = [], []
+    # decisions that are translated to Gallina and tied semantically (SITES) are compared there, so that a harmless
+    # respelling of one of them is not a broken tie here
+    covered = {}
+    for sid0, path0, qual0, idx0, env0, binders0, model0 in SITES:
+        if idx0 is not None and model0 is not None:
+            covered.setdefault((path0, qual0), set()).add(idx0)
+    for path, fns in rec.items():
+        for qual, expected in fns.items():
+            sid = "dec_" + re.sub(r"\W+", "_", path.split("/")[-1][:-3] + "_" + qual)
+            got = now.get(path, {}).get(qual)
+            props = decision_props(path, qual)
+            if got is None:
+                report.append(dict(site=sid, file=path, function=qual, index=None, source=None, props=props,
+                                   status="tie broken: function %s no longer exists or has no decision left" % qual))
+                continue
+            cov = covered.get((path, qual), set())
+            if cov and len(got) == len(expected):
+                got = [g for i, g in enumerate(got) if i not in cov]
+                expected = [e for i, e in enumerate(expected) if i not in cov]
+            status = "ok" if got == expected else \
+                "tie broken: decisions are now %r, the model was aligned with %r" % (
+                    [g for g in got if g not in expected][:3] or got[:3], [e for e in expected if e not in got][:3] or expected[:3])
+            report.append(dict(site=sid, file=path, function=qual, index=None, status=status, source="; ".join(got)[:400], props=props))
+            items.append((sid, got, expected))
+        for qual in now.get(path, {}):
+            if qual not in fns:
+                sid = "dec_" + re.sub(r"\W+", "_", path.split("/")[-1][:-3] + "_" + qual)
+                report.append(dict(site=sid, file=path, function=qual, index=None, source="; ".join(now[path][qual])[:400],
+                                   props=[], status="ok"))          # a new function: reported, not a broken tie by itself
+    return items, report
+
+
 def structural():
     cache, items, report = {}, [], []
     for sid, path, qual, ext, expected, props in STRUCT_SITES:
@@ -425,7 +509,8 @@ def structural():
         status = "ok" if got == expected else "tie broken: structure is %r, the model assumes %r" % (got, expected)
         report.append(dict(site=sid, file=path, function=qual, index=None, status=status, source="; ".join(got), props=props))
         items.append((sid, got, expected))
-    return items, report
+    di, dr = decision_sites()
+    return items + di, report + dr
 
 
 def load(path):
@@ -574,6 +659,8 @@ def cmd_gen(outdir, coqdir="/verif/coq"):
 if __name__ == "__main__":
     if sys.argv[1] == "list":
         cmd_list(sys.argv[2])
+    elif sys.argv[1] == "snapshot":
+        json.dump(decisions_now(), open(os.path.join(os.path.dirname(os.path.abspath(__file__)), "decisions.json"), "w"), indent=1)
     else:
         rep = cmd_gen(sys.argv[2])
         bad = [r for r in rep if r["status"] != "ok"]
